@@ -86,7 +86,23 @@ def blameDT (ext : Ext) (path : String) (dt : DataType) (nullable : Bool) (md : 
       let inner := blameEntriesMap ext (base ++ "." ++ childName kn) kdt knl kmd (base ++ "." ++ childName vn) vdt vnl vmd es
       if inner.isEmpty then [path] else inner
     | _ => [path]
-  | .mapRaw _ => []                         -- malformed streams have no meaning (C16 only)
+  | .mapRaw ops =>
+    -- a key/value call stream: well-formed (alternating) streams mean the same as `.map`; malformed ones have
+    -- no meaning (C16 only)
+    if !isAlternating ops then [] else
+    if (interpDT ext dt nullable md (.mapRaw ops)).isOk then [] else
+    match dt with
+    | .struct fs =>
+      let keys := opsKeys ops
+      let inner := blameOpsStruct ext path fs.toList ops
+      let missingChild := blameMissing path fs.toList keys
+      let own := structOwnFails fs.toList keys || !(opsKeysAreStrings ops).isOk
+      (if own || (inner.isEmpty && missingChild.isEmpty) then [path] else []) ++ inner ++ missingChild
+    | .map (.mk en (.struct (.cons (.mk kn kdt knl kmd) (.cons (.mk vn vdt vnl vmd) _))) _ _) _ =>
+      let base := path ++ "." ++ childName en
+      let inner := blameOpsMap ext (base ++ "." ++ childName kn) kdt knl kmd (base ++ "." ++ childName vn) vdt vnl vmd ops
+      if inner.isEmpty then [path] else inner
+    | _ => [path]
   | .newtypeVariant n i vn v =>
     if (interpDT ext dt nullable md (.newtypeVariant n i vn v)).isOk then [] else
     match dt with
@@ -171,6 +187,23 @@ def blameEntriesMap (ext : Ext) (kp : String) (kdt : DataType) (knl : Bool) (kmd
   | .nil => []
   | .cons k x rest =>
     blameDT ext kp kdt knl kmd k ++ blameDT ext vp vdt vnl vmd x ++ blameEntriesMap ext kp kdt knl kmd vp vdt vnl vmd rest
+
+def blameOpsStruct (ext : Ext) (path : String) (fs : List Field) : SMapOps → List String
+  | .key k (.value x rest) =>
+    (match (keyStr k).toOption.bind (fun key => fs.find? (·.name == key)) with
+      | some (.mk n dt nl md) => blameDT ext (path ++ "." ++ n) dt nl md x
+      | none => []) ++ blameOpsStruct ext path fs rest
+  | _ => []
+
+def blameOpsMap (ext : Ext) (kp : String) (kdt : DataType) (knl : Bool) (kmd : Metadata)
+    (vp : String) (vdt : DataType) (vnl : Bool) (vmd : Metadata) : SMapOps → List String
+  | .key k (.value x rest) =>
+    blameDT ext kp kdt knl kmd k ++ blameDT ext vp vdt vnl vmd x ++ blameOpsMap ext kp kdt knl kmd vp vdt vnl vmd rest
+  | _ => []
+
+def opsKeys : SMapOps → List String
+  | .key k (.value _ rest) => (match keyStr k with | .ok s => [s] | .error _ => []) ++ opsKeys rest
+  | _ => []
 
 def fieldKeys : SFields → List String
   | .nil => []
